@@ -680,7 +680,7 @@ func runC04(e *Engine, r *Report, tier string) {
 		"R1 path ledger: on every success path of a routine that calls the bank keeper with a module account, each coin that is minted is paid out and each coin that is burned was collected on that path (module escrow unchanged when supply changes), all operations use one module account and one holder, and every amount is the amount of the routine's coin parameter; a success path without any operation is accepted only when the coin is FX, is not the representation the routine converts, or the test is on the coin's own amount. " +
 		"R2/R3 inverse agreement: every routine that releases value from a module account (mint or module->account) has, in the same package, a routine that undoes it for every token kind (FX, module-owned pair, externally-owned pair) and conversion direction: branch conditions are interpreted over that finite configuration space and the supply and holder effects of each pair of paths must cancel; a releasing routine with no inverse is a second, unproved implementation of deposit/refund. " +
 		"R4 holder agreement: coins credited to an account by a crediting routine are later debited only from that account (or after an explicit transfer to the debited account). " +
-		"R5 escrowed amount = recorded in-flight amount at creation of pool entries and outgoing bridge calls. R6 imports the obligations decided under C05 on refund amount, fee-increase amount and token, and on which batch a cancel returns to the pool (never the executed one). R7 composite conversions (functions chaining two value routines): per success path the holder effects of the chained routines — taken from their verified signatures — cancel on every intermediate representation and leave exactly the consumed or the returned coin, for one holder. R8 the error of every call to a value-moving routine is propagated — the failing branch ends in an error return or panic — unless the call ran on a cached context. " +
+		"R5 escrowed amount = recorded in-flight amount at creation of pool entries and outgoing bridge calls. R6 imports the obligations decided under C05 on refund amount, fee-increase amount and token, and on which batch a cancel returns to the pool (never the executed one). R7 composite conversions (functions chaining two value routines): per success path the holder effects of the chained routines — taken from their verified signatures — cancel on every intermediate representation and leave exactly the consumed or the returned coin, for one holder. R9 imports the apply-once obligations of C01 (the handler dispatch is reached only once per event nonce; a parked claim is deleted before any handler effect, so it cannot be executed twice, not even re-entrantly through the executeClaim precompile). R8 the error of every call to a value-moving routine is propagated — the failing branch ends in an error return or panic — unless the call ran on a cached context. " +
 		"Not decided: balances and supply at run time over histories, loops (routines with loops are only subject to R3), the bank and erc20 keepers' own behaviour, the migration of escrow held by earlier versions."
 	r.Rule("R1", "per success path: mint => paid out, burn => collected; one module account, one holder, one amount", 6, "routines with own bank-module operations")
 	r.Rule("R2", "releasing routine has an inverse routine for every token kind and direction", 4, "routines with own mint / module->account")
@@ -690,6 +690,7 @@ func runC04(e *Engine, r *Report, tier string) {
 	r.Rule("R7", "composite conversions: intermediate representations cancel; net effect is the consumed / returned coin; one holder", 2, "functions chaining two value routines")
 	r.Rule("R8", "the error of every value-moving call is propagated (or the call runs on a cached context)", 10, "calls to routines with a debit/credit summary")
 	r.Rule("R6", "refund amount, fee-increase amount and token, cancel target (C05.R2/R3/R5)", 5, "C05 obligations")
+	r.Rule("R9", "an observed event's effects (mint / release) are applied once: apply-once dispatch and parked claims executed once (C01.R2/R5)", 4, "C01 obligations")
 	r.Assume("A1: the token pair stored for a base denom has owner MODULE or EXTERNAL (x/erc20 RegisterNativeCoin / RegisterNativeERC20 are the only writers)")
 	r.Assume("A2: FX has no alias denominations: the bridge denom of FX is FX (types/metadata.go GetFXMetaData carries no aliases; ManyToOne returns FX for FX)")
 
@@ -881,6 +882,15 @@ func runC04(e *Engine, r *Report, tier string) {
 	for _, o := range sub.Obls {
 		if (o.Rule == "R2" && strings.HasSuffix(o.Construct, " target")) || (o.Rule == "R3" && strings.HasSuffix(o.Construct, "refund-amount")) || (o.Rule == "R5" && (strings.HasSuffix(o.Construct, " amount") || strings.HasSuffix(o.Construct, " same-token"))) {
 			r.add("R6", "C05."+o.Rule+" "+o.Construct, o.Status, o.Pos, o.Detail)
+		}
+	}
+
+	// ---------- R9: an observed deposit is credited once (C01.R2 apply-once dispatch, C01.R5 parked claim executed once) ----------
+	sub01 := NewReport("C01", "other")
+	runC01(e, sub01, tier)
+	for _, o := range sub01.Obls {
+		if o.Rule == "R2" || o.Rule == "R5" {
+			r.add("R9", "C01."+o.Rule+" "+o.Construct, o.Status, o.Pos, o.Detail)
 		}
 	}
 }
